@@ -154,7 +154,9 @@ Definition c14_proc_run (case obs : sx) : verdict :=
   end.
 
 (* a condition whose value list holds something that is not a string (written as an integer in the case):
-   fd/util.go extractConditions refuses the configuration ("can't parse %v as string") *)
+   fd/util.go extractConditions refuses the configuration ("can't parse %v as string"); so it does when the
+   value itself is a number instead of a string / a list (the harness writes a lone integer of an odd-numbered
+   condition as a scalar): "can't parse %v as string or list of strings", /repo fix 4c267b0 *)
 Definition cond_non_string (s : sx) : bool :=
   match s with
   | SL [_; SL vs; _] => existsb (fun v => match v with SZ _ => true | _ => false end) vs
